@@ -228,13 +228,10 @@ class Exec:
         if c is not None:
             return c
         t0 = time.time()
-        s = z3.Solver()
-        s.set('timeout', self.feas_timeout)
-        for a in self.pc:
-            s.add(a)
-        r = s.check()
+        res = smt.check_forked(self.pc, self.feas_timeout)
         self.stats['feas_checks'] += 1
         self.stats['feas_time'] += time.time() - t0
+        r = z3.unsat if res['status'] == 'unsat' else z3.sat
         ok = r != z3.unsat
         self.explorer.feas_cache[key] = ok
         return ok
